@@ -85,6 +85,24 @@ class Scenario:
                 late.remove((desc, reg))
                 env.spawn(outside_early, "early-" + desc["id"], desc)
 
+        def outside_second(desc):
+            runtime.running.wait()
+            kit.submit(desc)
+
+        for desc, reg in list(late):
+            if reg == "outside2":
+                late.remove((desc, reg))
+                env.spawn(outside_second, "second-" + desc["id"], desc)
+
+        def companion():
+            runtime.running.wait()
+            kit.submit({"id": "companion", "flavour": params["companion"],
+                        "steps": [("block",) if params["companion"] == "threading"
+                                  else ("forever", 0.7)]})
+
+        if params.get("companion"):
+            env.spawn(companion, "companion")
+
         def outside():
             runtime.running.wait()
             for desc, reg in late:
@@ -203,6 +221,11 @@ def scenario_params(tier):
             [("raise", "UserError"), ("return", "1")]):
         out.append({"failing": (fl_a, how_a, "1s", "queued"),
                     "second": (fl_b, how_b, "1s", "queued"), "bystanders": "none"})
+    # 4. the failing payload and a harmless one of the same flavour are adopted by two
+    #    outside threads at the same moment
+    for flavour, how in itertools.product(FLAVOURS, [("raise", "LookupError"), ("return", "0")]):
+        out.append({"failing": (flavour, how, "first", "outside2"), "companion": flavour,
+                    "bystanders": "none"})
     return out
 
 
@@ -221,7 +244,11 @@ def run(ctx):
                      "time_jump_cost": None if ctx.quick else 1},
             "budget": 4000 if ctx.quick else 30000,
         })
-    if not ctx.quick:
+    if ctx.quick:
+        # two hand-overs to the asyncio / trio runner that overlap: only visible between lines
+        specs += H.line_variants(
+            specs, lambda p: p.get("companion") in ("asyncio", "trio"))
+    else:
         specs += H.line_variants(
             specs, lambda p: (p.get("second") or p["failing"][3] in ("outside", "from:trio"))
             and p["failing"][1] in (("raise", "LookupError"), ("return", "0"), ("return", "''"))
